@@ -147,8 +147,11 @@ def chk_collection(ctx, raw_enc, norders):
             # equal bases denote the same class object; Av(raw) has that basis
             try:
                 a1, a2, a3 = Av(list(patts)), Av(list(reversed(patts))), Av(ref)
+                lazy = [Av(iter(list(patts))), Av(q for q in reversed(patts)), Av.from_iterable(iter(tuple(patts))), Av(set(patts)), Av(tuple(patts))]
                 ctx.count("av_identity.checked")
                 ctx.ev()
+                if any(o is not a1 for o in lazy):
+                    report(f"Av of the same patterns given lazily (iterator / generator) or as set / tuple is not the object Av(list) gives: bases {[o.basis for o in lazy if o is not a1][:2]!r} vs {a1.basis!r}", known)
                 if not (a1 is a2 and a2 is a3 and a1.basis == ref):
                     report(f"Av identity: Av(raw) / Av(reversed raw) / Av(basis) are not one object with basis {ref!r}", known)
                 if not mesh:
